@@ -47,6 +47,9 @@ def mk_fns(log):
     def is_int(t):
         return isinstance(t, int)
 
+    def ret_None(t):
+        return None
+
     def ret_SKIP(t):
         return glom.SKIP
 
@@ -79,7 +82,7 @@ def mk_fns(log):
             return impl(*a, **kw)
         f.__name__ = name
         return f
-    return {f.__name__: wrap(f) for f in (ident, inc, size, is_none, is_int, ret_SKIP, ret_STOP,
+    return {f.__name__: wrap(f) for f in (ident, inc, size, is_none, is_int, ret_None, ret_SKIP, ret_STOP,
                                           raise_KeyError, raise_ValueError, raise_GlomError, echo,
                                           mk0, pair)}
 
@@ -262,6 +265,7 @@ def record(check, n, seed):
     rejects = vlib.validate_rows(check, 'Trace_C03', rows, 'random-specs')
     skipped = 0
     for row, rej in rejects:
+        row['_rejected'] = True
         if rej['clause'].startswith('skip:'):
             skipped += 1          # outside the modelled fragment: not judged (and not counted as validated)
             continue
@@ -275,15 +279,20 @@ def record(check, n, seed):
     check.extra['recorded_outcomes'] = c03_gen.histogram(('ok' if r['obs']['ok'] else r['obs']['exc']) for r in rows)
     for row in rows:
         if c03_gen.depth(row['spec']) >= 4 and row['obs']['ok'] and row['obs']['log']:
-            check.sample(dict(kind='recorded', **row), limit=6)
+            check.sample(dict(kind='recorded', **{k: v for k, v in row.items() if k != '_rejected'}), limit=6)
             break
     return rows
 
 
 def corrupted_row_is_rejected(check, rows):
-    """machinery self-test: flip one recorded field, the specification must reject that row"""
+    """machinery self-test: take a row the specification ACCEPTED, drop one call from its recorded
+    log: the specification must now reject it.  Returns None when no accepted row is available
+    (e.g. everything is being rejected: then there is nothing this self-test could add)."""
     import copy
-    row = copy.deepcopy(next(r for r in rows if r['obs']['ok'] and r['obs']['log']))
+    good = [r for r in rows if not r.get('_rejected') and r['obs']['ok'] and r['obs']['log']]
+    if not good:
+        return None
+    row = copy.deepcopy(good[0])
     row['obs']['log'] = row['obs']['log'][1:]
     tmp = vlib.Check(PROP, check.tier, check.seed)
     rej = vlib.validate_rows(tmp, 'Trace_C03', [row], 'corrupted')
@@ -296,8 +305,10 @@ def match_finding(f, case):
 
 # ---- universes (defined in spec/MC_C03.tla, operator Conf) ------------------------------------------
 FAMILIES = {
-    'quick': ['q_nest', 'q_pairs', 'q_leaves', 'q_coal1', 'q_coal2', 'q_calls', 'q_modes', 'q_ref'],
-    'thorough': ['t_nest', 't_nest5', 't_leaves', 't_coal', 't_calls', 't_callnest', 't_modes', 't_ref'],
+    'quick': ['q_nest', 'q_pairs', 'q_leaves', 'q_coal1', 'q_coal2', 'q_calls', 'q_modes', 'q_ref',
+              'q_coaln1', 'q_coaln2', 'q_chains'],
+    'thorough': ['t_nest', 't_nest5', 't_leaves', 't_coal', 't_calls', 't_callnest', 't_modes', 't_ref',
+                 'q_coaln1', 'q_coaln2', 't_chains'],
 }
 # wrong mechanism variants (GlomAuto env.mut) and the small universe on which TLC must report
 # the law violated
@@ -307,6 +318,15 @@ MUTANTS = [('tuple_skip_breaks', 'm_chain'), ('coalesce_eager', 'm_coal'), ('dic
 
 def tla_set(names):
     return '{%s}' % ', '.join('"%s"' % n for n in names)
+
+
+def _case_chunk(text):
+    """parse only the finished cases (phase 1) of a dump chunk: the intermediate states of the tree
+    construction are the majority and carry nothing to replay"""
+    import re
+    blocks = re.split(r'^(?=State \d+:\n)', text, flags=re.M)
+    keep = ''.join(b for b in blocks if '/\\ phase = 1' in b)
+    return worker(vlib._parse_chunk_text(keep)) if keep else dict(fams={}, bad=[], samples=[])
 
 
 def map_cases(families, timeout=7200):
@@ -324,12 +344,10 @@ def map_cases(families, timeout=7200):
                            constants=dict(Families=tla_set(families), Mutant='"none"'))
         vlib.tlc_must_pass(res, 'MC_C03 %s' % (families,))
         TARGET_HEAP = [j for j in res['json'] if 'targetheap' in j][0]['targetheap']
-        vlib._WORKER = worker
         with mp.get_context('fork').Pool(vlib.NCPU) as pool:
-            results = list(pool.imap_unordered(vlib._chunk_worker, vlib._dump_chunks(path + '.dump')))
+            results = list(pool.imap_unordered(_case_chunk, vlib._dump_chunks(path + '.dump')))
         return res, results
     finally:
-        vlib._WORKER = None
         shutil.rmtree(scratch, ignore_errors=True)
 
 
@@ -368,9 +386,10 @@ def main(tier, seed):
     t0 = time.time()
     rows = record(check, {'quick': 6000, 'thorough': 40000}[tier], seed)
     check.extra['wall_code_to_spec_s'] = round(time.time() - t0, 1)
-    if not corrupted_row_is_rejected(check, rows):
+    selftest = corrupted_row_is_rejected(check, rows)
+    check.extra['corrupted_row_rejected'] = selftest
+    if selftest is False and not check.violations:      # (a detection is never masked by a self-test)
         raise vlib.MachineryError('a corrupted recorded row was not rejected by Trace_C03')
-    check.extra['corrupted_row_rejected'] = True
     if tier == 'thorough':
         mut = {}
         for name, fam in MUTANTS:
